@@ -2,6 +2,7 @@
 Every random choice derives from one PRNG seeded by (seed, property)."""
 
 import random
+from universe import Adt
 from universe import Universe, Sum, Adt, Seq, Str, Array, Tuple, Prim, Range, Phantom
 
 HEADER_FIXED = 29
@@ -290,7 +291,8 @@ def gen_cases(prop, u, seed, tier, probe=None):
                 cs.add('xdeser %d %d %s' % (x, y, vals[x]), kind='xdeser', ti=x, tj=y, val=vals[x], family='near-miss:' + kind)
         # arbitrary ordered pairs
         idx = list(range(n))
-        pairs = [(a, b) for a in idx for b in idx if a != b]
+        near = set((a, b) for (a, b, _) in u.mutant_pairs) | set((b, a) for (a, b, _) in u.mutant_pairs)
+        pairs = [(a, b) for a in idx for b in idx if a != b and (a, b) not in near]   # near-miss pairs are run above, under their own label
         if quick and len(pairs) > 6000:
             pairs = rng.sample(pairs, 6000)
         for (a, b) in pairs:
@@ -306,7 +308,6 @@ def gen_cases(prop, u, seed, tier, probe=None):
             heap = owns_heap(t)
             cs.add('zcc %d' % i, kind='zcc', ti=i, family='consts', heap=heap)
     elif prop == 'C05':
-        from universe import Adt
         seen_defs = set()
         for i, t in enumerate(u.types):
             cs.add('dtype %d' % i, kind='dtype', ti=i, family='dtype')
